@@ -260,13 +260,43 @@ async def p_random_ops(mpc, seed):
     return {'outs': outs, 'ok': outs[-len(regs):] == ref}
 
 
+async def p_peek_mix(mpc, arg):
+    """result-less coroutines (mpc.peek, a user coroutine returning None) interleaved with awaits of results that were
+    requested earlier and complete at different moments at different parties"""
+    await mpc.start()
+    secint = mpc.SecInt(8)
+    log = []
+
+    @mpc.coroutine
+    async def note(v, tag) -> None:
+        log.append((tag, int(await mpc.output(v % 7))))
+    x = mpc.input(secint(arg % 5 + 1), senders=0)
+    y = x * x
+    res = []
+    for rnd_ in range(3):
+        # two results requested early; when the first await returns, the second result may or may not be complete already,
+        # so whether `await o2` suspends differs between parties and schedules
+        o1 = mpc.output(y + rnd_)
+        o2 = mpc.output(y - rnd_)
+        res.append(int(await o1))       # (messages of o2 travel behind those of o1 on every connection)
+        mpc.peek(x, f'p{rnd_}')
+        note(y, f'n{rnd_}')
+        res.append(int(await o2))
+        y = y * x + 1          # forks right after an await that may not have suspended
+        res.append(int(await mpc.output(y % 11)))
+    a, b, c = res[0], res[1], res
+    await mpc.shutdown()
+    return [int(a), int(b), int(c), sorted(log)]
+
+
 CORPUS = {
+    'peek_mix': p_peek_mix,
     'out': p_out, 'mul2': p_mul2, 'prss': p_prss, 'conv': p_conv, 'await_fork': p_await_fork,
     'barrier': p_barrier, 'done_results': p_done_results, 'transfer': p_transfer, 'seclist': p_seclist,
     'stats': p_stats, 'fxp': p_fxp, 'fld': p_fld, 'random': p_random, 'gcd': p_gcd,
     'random_ops': p_random_ops,
 }
-QUICK = ['out', 'mul2', 'prss', 'await_fork', 'barrier', 'done_results', 'transfer', 'conv', 'random_ops']
+QUICK = ['out', 'mul2', 'prss', 'await_fork', 'barrier', 'done_results', 'transfer', 'conv', 'random_ops', 'peek_mix']
 
 
 # ---- exact mirrors of PCSched model programs (M=3, T=1: every party deals in _reshare) -------------
